@@ -180,6 +180,25 @@ Theorem C20_set_then_read : forall x : R, 0 <= x <= 100 ->
 Proof. exact set_then_read. Qed.
 Print Assumptions C20_set_then_read.
 
+(* a level set by the user survives the start of a stream, whatever initial level the receiver
+   advertises (RaopStream.stream_file consults has_changed_volume): the stored level is sent to the
+   receiver again and reads back within 2^-42 of the level set - for EVERY level in [0,100],
+   100 (= 0.0 dBFS) and 0 (= the mute sentinel) included *)
+Theorem C20_level_survives_stream_start : forall (x : R) (initial : option R), 0 <= x <= 100 ->
+  exists d y d' y',
+    rrun DR (rinit DR) [@RSet DR x; @RStream DR initial; @RRead DR] =
+      [[@Fwd DR x; @Dev DR d]; [@Fwd DR y; @Dev DR d']; [@Ret DR y']] /\
+    (d = -144 \/ -30 <= d <= 0) /\ (d' = -144 \/ -30 <= d' <= 0) /\
+    Rabs (y - x) <= bpow radix2 (-43) /\ 0 <= y' <= 100 /\ Rabs (y' - x) <= bpow radix2 (-42).
+Proof. intros x i. exact (set_stream_read x i). Qed.
+Print Assumptions C20_level_survives_stream_start.
+
+(* a VolumeDidChange for ANOTHER output device of the group is invisible to this device's level *)
+Theorem C20_mrp_other_device_ignored : forall (s : mstate DR) (v : R) (ops : list (@mop DR)),
+  mrun DR s (@MOther DR v :: ops) = [] :: mrun DR s ops.
+Proof. intros s v ops. reflexivity. Qed.
+Print Assumptions C20_mrp_other_device_ignored.
+
 (* facade + MrpAudio: as long as the device reports levels within [0,100], every history keeps
    every returned value and every level handed to MrpAudio.set_volume within [0,100] *)
 Theorem C20_mrp_all_histories : forall (s : mstate DR) (ops : list (@mop DR)),
